@@ -895,9 +895,11 @@ package main
 //@ func reToGo
 //@   trusted
 //@   panics may
+// a lazy block (an if-branch) is a parameterless Go closure returning the block's value
 //@ func lbToGo
-//@   trusted
+//@   props C03
 //@   panics may
+//@   ensures text: result == "(func () " + go_type(exprtype(lb.Block.FinalExpr)) + " {\n" + bToRet(lb.Block) + "})"
 //@ func fcToGo
 //@   props C03 C11
 //@   ghost R int                 -- 1: emitted as a closure over the missing parameters, 2: emitted as a plain call
@@ -2161,9 +2163,10 @@ package main
 //@   trusted
 //@   panics may
 //@ func refVar
-//@   trusted
+//@   props C08
 //@   modifies maps
 //@   panics may
+//@   ensures a-variable-reference: is(Expr_EVarRef, result)
 //@ func parseFAAfterDot
 //@   props C08 C16
 //@   modifies maps glob:vardefs
